@@ -11,8 +11,11 @@ import Cellml.Props.C01
     Part 1 (hash seeds).   `load_order_independent`, `queries_order_independent`, `graph_nodes_order_independent`:
       nothing the ordered API returns — nor the insertion order of `Model.graph` — depends on the adversary. The code
       BEFORE the two fixes is kept as `transformConstantsSet` / `loadSet` and `graphSet` / `graphNodesSet` with the
-      proved counterexamples `transform_constants_set_order_dependent`, `graph_nodes_set_order_dependent`; one order
-      dependence that is still in the code is reproduced by the model and proved: `derived_depends_on_equation_order`.
+      proved counterexamples `transform_constants_set_order_dependent`, `graph_nodes_set_order_dependent`.
+      `roles_equation_order_independent`, `derived_equation_order_independent` (after the third fix: the roles that
+      come from the ODEs win): `Variable.type` and `get_derived_quantities` are functions of the SET of equations;
+      the code before it is kept as `typesOld` / `getDerivedQuantitiesOld` with the proved counterexample
+      `derived_depended_on_equation_order_before_fix`.
     Part 2 (sorting).      `sorted_queries_deterministic`, `order_added_distinct`, `lexTopo_insertion_independent`.
     Part 3 (permutations). `variables_follow_document`, `equations_follow_document` say exactly which orders follow
       the document; `element_perm_*` say what does not change when order-insensitive elements are permuted. -/
@@ -169,7 +172,7 @@ theorem states_order_independent (cx : Ctx) (π π' : Adv) (doc : Doc) (F F' : F
   have : (Except.ok F : Except Err Flat) = .ok F' := h.symm.trans ((load_order_independent π π' doc).trans h')
   cases this; rfl
 
-/-! ### The graph before its fix, and one order dependence that is still in the code, reproduced by the model -/
+/-! ### The graph before its fix; the roles before and after theirs -/
 
 /-- a small flat model: `dx/dt = x + y`, `dy/dt = a`, `z = a + a`, constant `a = 3` (what `load` gives for one
     component with variables t, x, y, z, a) -/
@@ -248,16 +251,60 @@ def freeEqLast : Flat :=
             ⟨.var ("A", "t"), .mul (.num 2 ([], [])) (.var ("A", "s"))⟩,
             ⟨.var ("A", "s"), .num 1 ([], [])⟩] }
 
-/-- KNOWN FINDING `permutation:derived-free-variable-with-equation`. When the free variable of an ODE also has a
-    defining equation, `Variable.type` is whatever `Model.graph` assigned LAST, so the SET `get_derived_quantities`
-    returns depends on the order of `Model.equations`, i.e. on the order of the components in the document:
-    the same three equations, `t` (node 0) is a derived quantity or not. -/
-theorem derived_depends_on_equation_order :
+/-- **The roles are a function of the SET of equations** (FIXED FINDING
+    `permutation:derived-free-variable-with-equation`). `Model.graph` types all left-hand sides first and assigns the
+    roles that come from the ODEs afterwards — STATE, then FREE —, so for two equation lists that are permutations of
+    one another (left-hand sides pairwise different: what `Model.graph` asserts) EVERY variable has the same
+    `Variable.type`, wherever the ODEs stand. -/
+theorem roles_equation_order_independent (cx : Ctx) (eqs eqs' : List FlatEq) (hp : eqs'.Perm eqs)
+    (hnd : (eqs.map (fun e => cx.num e.lhs)).Nodup) : types cx eqs' = types cx eqs :=
+  types_perm cx hp hnd
+
+/-- **`get_derived_quantities()` is invariant under permuting `Model.equations`** — that is, under permuting the
+    components, the `<math>` elements or the equations of the document, which permute `Model.equations`
+    (`equations_follow_document`, `element_perm_equations`): two flat models with the same variables and the same
+    equations in another order return the same list, or are both refused. Hypothesis as in
+    `queries_order_independent`: every defined variable is declared (the loader guarantees it: `load_declared`). -/
+theorem derived_equation_order_independent (cx : Ctx) (π : Adv) (obs : FlatEq → List (Lhs VRef)) (F F' : Flat)
+    (hvars : F'.vars = F.vars) (hp : F'.eqs.Perm F.eqs) (hd : Declared cx F) :
+    (getDerivedQuantities cx π obs F').toOption = (getDerivedQuantities cx π obs F).toOption :=
+  derived_perm hvars hp hd
+
+/-- the same for a document that loads (`Declared` proved from `Load.load doc = ok F`) -/
+theorem derived_equation_order_independent_loaded (doc : Doc) (cx : Ctx) (π : Adv) (obs : FlatEq → List (Lhs VRef))
+    (F F' : Flat) (h : load π doc = .ok F) (hvars : F'.vars = F.vars) (hp : F'.eqs.Perm F.eqs) :
+    (getDerivedQuantities cx π obs F').toOption = (getDerivedQuantities cx π obs F).toOption :=
+  derived_perm hvars hp (load_declared cx h)
+
+/-- BEFORE the fix (`typesOld`: ONE loop, the LAST assignment to `Variable.type` stays; `getDerivedQuantitiesOld`).
+    When the free variable of an ODE also has a defining equation, the SET `get_derived_quantities` returned depended
+    on the order of `Model.equations`, i.e. on the order of the components in the document: the same three equations,
+    `t` (node 0) is a derived quantity or not. -/
+theorem derived_depended_on_equation_order_before_fix :
     freeEqLast.eqs.Perm freeEqFirst.eqs ∧
-    getDerivedQuantities (ctxOf freeEqFirst) Adv.ident obsAll freeEqFirst = .ok [] ∧
-    getDerivedQuantities (ctxOf freeEqLast) Adv.ident obsAll freeEqLast = .ok [0] := by
+    getDerivedQuantitiesOld (ctxOf freeEqFirst) Adv.ident obsAll freeEqFirst = .ok [] ∧
+    getDerivedQuantitiesOld (ctxOf freeEqLast) Adv.ident obsAll freeEqLast = .ok [0] := by
   refine ⟨?_, by decide +kernel, by decide +kernel⟩
   exact List.Perm.swap _ _ _
+
+/-- AFTER the fix: `t` is FREE in both orders and is no derived quantity in either (an instance of
+    `derived_equation_order_independent`, evaluated); a variable that is the state of one ODE and the free variable of
+    another is FREE in both orders, too -/
+example :
+    getDerivedQuantities (ctxOf freeEqFirst) Adv.ident obsAll freeEqFirst = .ok [] ∧
+    getDerivedQuantities (ctxOf freeEqLast) Adv.ident obsAll freeEqLast = .ok [] ∧
+    types (ctxOf freeEqFirst) freeEqFirst.eqs 0 = some .free ∧
+    types (ctxOf freeEqLast) freeEqLast.eqs 0 = some .free ∧
+    typesOld (ctxOf freeEqFirst) freeEqFirst.eqs 0 = some .free ∧
+    typesOld (ctxOf freeEqLast) freeEqLast.eqs 0 = some .computed := by
+  decide +kernel
+
+/-- the hypotheses of `derived_equation_order_independent` hold of the pair -/
+example : freeEqLast.vars = freeEqFirst.vars ∧ Declared (ctxOf freeEqFirst) freeEqFirst := by
+  refine ⟨rfl, ?_⟩
+  intro e he
+  simp only [freeEqFirst, List.mem_cons, List.not_mem_nil, or_false] at he
+  rcases he with rfl | rfl | rfl <;> decide +kernel
 
 /-! ## Part 2 — sorting -/
 
